@@ -62,19 +62,20 @@ class RunTail:
                     out.append((g.nodes[p], label, path + [f"--{label}--> {g.nodes[ex].label}"]))
         return out
 
-    def check_must_complete(self, ctx, rule: str, what: str, is_cut, starts=None):
+    def check_must_complete(self, ctx, rule: str, what: str, is_cut, starts=None, tag: str = ""):
         """One obligation per copy of the finally; one failing obligation per distinct escaping edge."""
         esc = self.escapes(is_cut, starts)
+        tag = f" skips: {tag}" if tag else ""
         bad = {}
         for node, label, path in esc:
             kind = label[1] if isinstance(label, tuple) else str(label)
             key = (A.head(node.stmt) if node.stmt is not None else node.label, kind)
             bad.setdefault(key, (node, path))
         for (stmt_head, kind), (node, path) in sorted(bad.items()):
-            ctx.ob(rule, f"{self.rm.run.key}:{stmt_head} [{kind}]", False,
+            ctx.ob(rule, f"{self.rm.run.key}:{stmt_head} [{kind}]{tag}", False,
                    f"an exit of _run is reachable without {what}: {kind} leaving `{stmt_head}` ends the coroutine first",
                    nontrivial=True, witness=path[-8:], where=where(self.rm.run, node.stmt))
-        ctx.ob(rule, f"{self.rm.run.key}:all other paths from the cleanup entry", True,
+        ctx.ob(rule, f"{self.rm.run.key}:all other paths from the cleanup entry{tag}", True,
                f"every remaining path from the {len(self.fin_entries)} copies of the finally to an exit completes: {what}",
                nontrivial=True)
         return not bad
